@@ -138,6 +138,25 @@ def g_discovery(prop, q):
                 exhaustive=True, tasks=[dict(module='contracts.discovery', want=[prop], args=a, cross=False) for a in T])
 
 
+def g_wrappers(prop, q):
+    T = []
+    for c in ('_SimpleWrapped', '_Wrapped'):
+        T += [dict(mode='init', cls=c), dict(mode='get', cls=c)]
+        for na in (0, 1, 2):
+            for nk in (0, 1) if q else (0, 1, 2):
+                T.append(dict(mode='call', cls=c, nargs=na, nkeys=nk))
+        for d in (1, 2, 3):
+            T.append(dict(mode='wrappers', cls=c, depth=d))
+    T.append(dict(mode='forger', cls='_Wrapped'))
+    for nf in (1, 2, 3):
+        for na in (0, 1):
+            T.append(dict(mode='combination', nfuncs=nf, nargs=na, nkeys=1))
+        T.append(dict(mode='combination_sig', nfuncs=nf))
+    return dict(name='wrappers', bound='none for the object state (tier P: which attributes the wrapped callable carries, every result and every exception symbolic); '
+                'argument lists <=2 positional + <=2 keywords, <=3 combined functions, wrapper chains of depth <=3 (the depth the property names)',
+                exhaustive=True, tasks=[dict(module='contracts.wrappers', want=[prop], args=a, cross=False) for a in T])
+
+
 def plan(prop, tier, seed=0):
     """returns list of job groups: dict(name, tasks, bound, exhaustive)"""
     q = tier == 'quick'
@@ -186,6 +205,8 @@ def plan(prop, tier, seed=0):
                    tasks=[dict(module='contracts.support', want=[prop], args=dict(mode='roundtrip', shape=(i, 16)), cross=False) for i in range(16)])]
     if prop == 'C14':
         G += [g_dropin(prop, B1), g_partial(prop, B1 if q else (1, 2, 1, 3), 0, 'plain')]
+    if prop == 'C13':
+        G += [g_wrappers(prop, q)]
     if prop in ('C05', 'C06', 'C07'):
         G += [g_discovery(prop, q)]
     if prop in ('C05', 'C07'):
